@@ -254,7 +254,9 @@ func c20Run(c *core.Ctx, idx int) {
 		body := mb.body
 		useGzip := c.Rng.Intn(3) == 0
 		hdr := http.Header{}
-		hdr.Set("Content-Type", "text/html")
+		// The declared charset is whatever the server says; the bytes are
+		// preserved whether or not they are well-formed in it.
+		hdr.Set("Content-Type", []string{"text/html", "text/html", "text/html; charset=utf-8", "text/html; charset=UTF-8", "text/html; charset=windows-1251", "text/html; charset=euc-jp", "text/html; charset=utf-16", "text/html; charset=iso-8859-1", "text/html; charset=\"utf-8\"", "text/html; charset=nosuch"}[c.Rng.Intn(10)])
 		wire := body
 		if useGzip {
 			// One gzip member, or several concatenated members (a legal stream).
@@ -299,7 +301,7 @@ func c20Run(c *core.Ctx, idx int) {
 		if seg.piece < 1<<30 {
 			c.Event("bodies_delivered_in_pieces", 1)
 		}
-		if c.Guard("filterHTML", nil, w, func() { p.tag, p.res, p.err = proxy.VerifFilterHTMLFrom(seg, declared, hdr) }) {
+		if c.Guard("filterHTML", nil, w, func() { p.tag, p.res, p.err = proxy.VerifFilterHTMLSession(seg, declared, hdr) }) {
 			continue
 		}
 		pend = append(pend, p)
@@ -423,7 +425,7 @@ func init() {
 		ID:    "C20",
 		Level: "exploration",
 		Rule: "per case 4 bodies: ASCII, all 256 byte values or mostly high bytes, plain or gzip-encoded, with 0..4 markers (</head, <link, <style, <script in random letter case) whose first occurrence is placed at 0, early, at 16383/16384, straddling the window, beyond it, or where high-byte padding moves the transcoded offset over the window, with near-markers before it (truncated markers and markers with one byte changed in its case bit, high bit or value, e.g. 0x1c for '<'); " +
-			"oracle on bytes: output == body[:i]+tag+body[i:] when the marker's transcoded offset is inside the window, output == body when no marker starts before byte 16384, either exact form in between; Content-Length == len(output), Content-Encoding removed, tag has the content-script form (hook VerifFilterHTMLFrom: the original body is delivered in pieces of 1 / 13 / 512 / 1460 / 4096 / 16384 bytes or at once, with a known or unknown declared length; the four responses of a case are filtered first and their bodies are read afterwards in another order); non-trivial = body with a marker; distinct by body head, marker offset and encoding",
+			"oracle on bytes: output == body[:i]+tag+body[i:] when the marker's transcoded offset is inside the window, output == body when no marker starts before byte 16384, either exact form in between; Content-Length == len(output), Content-Encoding removed, tag has the content-script form (hook VerifFilterHTMLSession: the response is attached with Session.SetResponse and declares no charset, utf-8, windows-1251, euc-jp, utf-16, iso-8859-1 or an unknown one; the original body is delivered in pieces of 1 / 13 / 512 / 1460 / 4096 / 16384 bytes or at once, with a known or unknown declared length; the four responses of a case are filtered first and their bodies are read afterwards in another order); non-trivial = body with a marker; distinct by body head, marker offset and encoding",
 		Assumptions: []string{
 			"the 16 KiB window is measured by the code on the Latin-1 to UTF-8 transcoded text; between the byte and the transcoded bound either outcome is accepted",
 		},
